@@ -377,6 +377,9 @@ func VerifHolding() {
 		vrt.Assert("C04.holding-pass-supply", got == expBal[t])
 		vrt.Assert("C03.holding-pass-balances-exact", got == expBal[t])
 		vrt.Assert("C06.held-batch-takes-effect-exactly-once", got == expBal[t])
+		// read as C17: the balances are what the recorded history (one status, one amount per
+		// batch, checked above) accounts for - nothing is credited beside the record
+		vrt.Assert("C17.balances-are-what-the-recorded-actions-account-for", got == expBal[t])
 	}
 	if c >= specV4 && c < specV20 {
 		be, berr := d.Pegnet.SelectBankEntry(tx, int32(c))
